@@ -163,7 +163,29 @@ def check_case(case):
     return fails, "ran"
 
 
+def gen_tight_spec(rng):
+    """Irreversible parallel routes that compete for a capacity not above fastcc's flux_threshold (1.0): source -> a, 2-3 routes a => d of
+    different length, d -> sink, and sometimes a dead end. One LP-7 round cannot give every route a flux at the threshold, so which reactions
+    the first round finds depends on the vertex; all routes are unblocked."""
+    cap = rng.choice(["1", "1/2", "1/4", "1", "2"])
+    rxns = [{"id": "EX_a", "st": {"a": "1"}, "lb": "0", "ub": cap, "rule": ""}]
+    for k in range(rng.randint(2, 3)):
+        length = rng.randint(1, 3)
+        prev = "a"
+        for i in range(length):
+            nxt = "d" if i == length - 1 else f"p{k}_{i}"
+            rxns.append({"id": f"T{k}_{i}", "st": {prev: "-1", nxt: "1"}, "lb": "0", "ub": rng.choice(["1000", "1000", "10"]), "rule": ""})
+            prev = nxt
+    rxns.append({"id": "EX_d", "st": {"d": "-1"}, "lb": "0", "ub": "1000", "rule": ""})
+    if rng.random() < 0.5:
+        rxns.append({"id": "DE", "st": {"d": "-1", "x": "1"}, "lb": "0", "ub": "1000", "rule": ""})
+    rng.shuffle(rxns)
+    return {"rxns": rxns, "obj": {}, "dir": "max", "groups": [], "extra_mets": []}
+
+
 def gen_case(rng):
+    if rng.random() < 0.1:
+        return {"kind": "fastcc", "spec": gen_tight_spec(rng), "pre": None, "open_exchanges": False}
     spec = gen_spec(rng)
     rids = [r["id"] for r in spec["rxns"]]
     pre = None
